@@ -242,9 +242,18 @@ def parse_count(out: str) -> int:
     return int(m[-1]) if m else 0
 
 
+def suspect_result(r: dict) -> bool:
+    """a result that may be due to a slow machine rather than to the code under test"""
+    if "hang" in r or "died" in r or "worker_error" in r:
+        return True
+    if r.get("rule_exc") == "hang" or r.get("lv") == ["hang"] or r.get("py") == ["hang"]:
+        return True
+    return any(isinstance(r.get(k), list) and len(r[k]) == 2 and r[k][1] == "hang" for k in ("before", "after"))
+
+
 def evaluate_terms(mods, terms, wd, nproc):
     srcs = [T.to_src(t) for t in terms]
-    return c15_worker.run_jobs(srcs, make_expr_job(mods), nproc, str(wd / "sandbox"))
+    return c15_worker.run_jobs_retry(srcs, make_expr_job(mods), nproc, str(wd / "sandbox"), suspect_result)
 
 
 def check(run: common.Run):
@@ -256,7 +265,10 @@ def check(run: common.Run):
         tables_ok = False
         run.violation({"kind": "tables", "detail": str(e)[-1500:],
                        "explanation": "constants.PURE_BUILTIN_FUNCTIONS could not be dumped"}, False)
+    stage = {}
+    ts = time.time()
     ps = common.proof_step(run, PID, wd)
+    stage["proof"] = round(time.time() - ts, 1)
     mods = common.import_impl()
     rnd = random.Random(run.seed)
     nproc = max(2, common.NCPU // 2)
@@ -266,7 +278,7 @@ def check(run: common.Run):
     # ---- cases
     l1, l2, n_l1 = exhaustive_cases(run.tier, rnd)
     if run.tier == "quick":
-        keep = 9000
+        keep = 6000
         l2_all = len(l2)
         # a deterministic shard (every k-th) plus a seeded sample of the rest
         step = max(1, l2_all // (keep // 2))
@@ -276,7 +288,7 @@ def check(run: common.Run):
     else:
         l2_all = len(l2)
     labelled = [("W:" + fid, t) for fid, t in witness_terms()] + l1 + l2
-    nrand = 3000 if run.tier == "quick" else 60000
+    nrand = 2500 if run.tier == "quick" else 60000
     for _ in range(nrand):
         labelled.append(("R", T.rand_expr(rnd, rnd.choice([2, 3, 3, 4, 5]))))
     terms = [t for _, t in labelled]
@@ -309,8 +321,10 @@ def check(run: common.Run):
             distinct.add(T.to_src(t))
         items.append((t, lvo if lvo[0] != "hang" else ("crash", "Hang"), pyo))
 
+    ts = time.time()
     files, shards = write_case_files(wd, "cases", items)
     results = common.run_case_files(files)
+    stage["coq_cases"] = round(time.time() - ts, 1)
     disagreements, claims = [], 0
     for p, shard in zip(files, shards):
         rc, out = results[p]
@@ -362,7 +376,9 @@ def check(run: common.Run):
                 jobs.append((rule, text))
                 meta.append((d["expr"], shape, rule))
                 terms_of_job.append(None)
-    pres = c15_worker.run_jobs(jobs, make_program_job(mods), nproc, str(wd / "sandbox"))
+    ts = time.time()
+    pres = c15_worker.run_jobs_retry(jobs, make_program_job(mods), nproc, str(wd / "sandbox"), suspect_result)
+    stage["sweep"] = round(time.time() - ts, 1)
     failures = []
     changed = 0
     for (src, shape, rule), (_, text), r in zip(meta, jobs, pres):
@@ -475,7 +491,7 @@ def check(run: common.Run):
         correspondence_disagreements=len(disagreements),
         sweep={"programs": len(jobs), "rewritten": changed, "failures": len(failures),
                "failures_matched_to_findings": len(failures) - len(unmatched)},
-        eval_wall_s=round(t_eval, 1), tables_ok=tables_ok,
+        eval_wall_s=round(t_eval, 1), stage_wall_s=stage, tables_ok=tables_ok,
         unmodelled=UNMODELLED,
         trusted_base=common.TRUSTED_BASE_COMMON + TRUSTED,
     )
